@@ -9,13 +9,13 @@ rm -rf "$wt"; git -C /repo worktree prune
 cd "$wt"
 # demo without the change
 mkdir -p "$wt/demo_out"; cp -r "$out"/. "$wt/demo_out/"
-sed -e "s#/tmp/wt/${id}_out#$wt/demo_out#g" -e "s#/tmp/wt/$id#$wt#g" "$out/run_demo.sh" > "$wt/run_demo_confirm.sh"
+sed -e "s#/tmp/wt/${id}_out#$wt/demo_out#g" -e "s#/tmp/wt/$id#$wt#g" "$out/run_demo.sh" > "$wt/demo_out/run_demo_confirm.sh"
 for f in "$wt"/demo_out/*.c "$wt"/demo_out/*.sh; do [ -f "$f" ] && sed -i -e "s#/tmp/wt/${id}_out#$wt/demo_out#g" -e "s#/tmp/wt/$id#$wt#g" "$f"; done
-base_rc=$( (cd "$wt" && sh ./run_demo_confirm.sh >/tmp/wt/confirm_$id.base.log 2>&1; echo $?) )
+base_rc=$( (cd "$wt" && sh ./demo_out/run_demo_confirm.sh >/tmp/wt/confirm_$id.base.log 2>&1; echo $?) )
 git apply "$out/patch.diff" || { echo "{\"id\":\"$id\",\"error\":\"patch does not apply\"}"; exit 1; }
 berr=$(make -j8 2>&1 | grep -c " error: ")
 make -k check -j8 > /tmp/wt/confirm_$id.check.log 2>&1
 pass=$(grep "^# PASS:" /tmp/wt/confirm_$id.check.log | awk '{print $3}'); fail=$(grep "^# FAIL:" /tmp/wt/confirm_$id.check.log | awk '{print $3}')
-mut_rc=$( (cd "$wt" && sh ./run_demo_confirm.sh >/tmp/wt/confirm_$id.mut.log 2>&1; echo $?) )
+mut_rc=$( (cd "$wt" && sh ./demo_out/run_demo_confirm.sh >/tmp/wt/confirm_$id.mut.log 2>&1; echo $?) )
 echo "{\"id\":\"$id\",\"build_errors\":$berr,\"suite_pass\":\"$pass\",\"suite_fail\":\"$fail\",\"demo_rc_without_change\":$base_rc,\"demo_rc_with_change\":$mut_rc}"
 cd /; git -C /repo worktree remove --force "$wt"
